@@ -55,6 +55,9 @@ def den(T):
   if mode == 4 and int(T.bits) == 1:
     return Den("set", values=(0.0, 1.0))
   bits, ib = int(T.bits), int(T.int_bits)
+  # binary / ternary types (and everything the library derives from them) carry int_bits == bits, i.e. their
+  # int_bits count the sign: a type whose int_bits exceed bits - is_signed denotes an integer type
+  ib = min(ib, bits - signed)
   frac = bits - signed - ib
   if signed:
     kmin, kmax = -2 ** (bits - 1), 2 ** (bits - 1) - 1
